@@ -728,7 +728,7 @@ func TestC14(t *testing.T) {
 	})
 
 	r.SetRule("exchange", "rapid-generated cases over 6 suites × 7 ciphers × mode {library↔library, reference device, reference owner} × serialise/restore after any subset of the three steps × blank session cipher {same, A128GCM as sqlite.DB.XSession uses} × reference public values with leading zero bytes (stripped and full width) and DH shared secrets with a leading zero byte × (1/4) one invalid peer parameter (DH 0,1,p-1,p,p+1,p+5,2p,empty,huge; ECDH empty/truncated/over-long/off-curve/infinity/swapped/other-curve/length-overrun/x-only; OAEP empty/short/long/other key/bit flip/zeros) on either side. Oracle: both sides' SEK/SVK equal and of the cipher's lengths; equal to the independent SP 800-108 KDF over the independently computed shared secret (RFC 3526 primes derived from π, crypto/ecdh, RSA-OAEP); traffic decrypts in both directions; invalid parameters ⇒ error and no key. Non-trivial: reference peer, restore, leading zero or invalid parameter; distinct by (suite,cipher,mode,restore,blank,leadz,invalid,side).")
-	n := ev.N{Quick: 4000, Thorough: 60000}
+	n := ev.N{Quick: 4000, Thorough: 400000}
 	ev.Rapid(r, "exchange", n, genKex, func(d kexDesc) ev.Result {
 		res := evalKex(d)
 		if d.Invalid != "" {
